@@ -517,8 +517,8 @@ func (w *Writer) writeEntryPointWithIO(epIdx int, ep *ir.EntryPoint) error {
 		// Rust naga always initializes locals: with init expression or (Type)0.
 		// Exception: RayQuery variables are NOT zero-initialized.
 		w.WriteIndent()
-		isRayQuery := strings.Contains(localType, "RayQuery")
-		if !isRayQuery && int(local.Type) < len(w.module.Types) {
+		isRayQuery := false
+		if int(local.Type) < len(w.module.Types) {
 			_, isRayQuery = w.module.Types[local.Type].Inner.(ir.RayQueryType)
 		}
 		if isRayQuery {
